@@ -752,7 +752,8 @@ impl<'a, 'b> G<'a, 'b> {
             self.f.unusual("vmodel-target-eval");
             self.c.choose(&["eval", "(eval)"])
         } else {
-            self.c.choose(&["m", "o.p", "o[x]", "xs[0]", "o.a.b"])
+            // (sometimes not assignable at all: to be reported)
+            self.c.choose(&["m", "o.p", "o[x]", "xs[0]", "o.a.b", "m", "o.p", "o[x]", "xs[0]", "o.a.b", "x + y", "f()", "{ a: 1 }", "-x", "1"])
         };
         let val_kind = self.c.weighted(&[
             8,
